@@ -229,13 +229,13 @@ _OR = 'the trace of the same program on the other build (results as names/tags, 
 
 
 def make_snap(params, part, nparts):
-    def h(L: int, k: int, m: int, w: int):
+    def h(L: int, k: int, m: int, w: int, f: int):
         cL = pick(L, 3) + 2
         ck = pick(k, 3) + 1
         assume(ck < cL)
         cm = pick(m, len(TP.SNAP_MUT))
         assume((cL * len(TP.SNAP_MUT) + cm) % nparts == part)
-        prog = [cL, ck, cm, pick(w, 2)]
+        prog = [cL, ck, cm, pick(w, 2), pick(f, 8)]
         reached(tuple(prog), dict(family='snap', program=describe('snap', prog)))
         native(differential, 'snap', prog)
     return h
